@@ -17,6 +17,8 @@ VERIF_FAIL_PATTERNS = [
     (re.compile(r"^invariant not satisfied before loop"), "invariant_entry"),
     (re.compile(r"^loop invariant not satisfied"), "invariant"),
     (re.compile(r"^assertion failed"), "assertion"),
+    (re.compile(r"^bitvector (assertion|ensures|requires) not satisfied"), "bitvector_assertion"),
+    (re.compile(r"^assert_by_compute|^failed to simplify down to true"), "compute_assertion"),
     (re.compile(r"^possible arithmetic underflow/overflow"), "overflow"),
     (re.compile(r"^possible division by zero"), "div_by_zero"),
     (re.compile(r"^possible bit shift underflow/overflow"), "shift_overflow"),
@@ -119,6 +121,17 @@ class Unit:
         if missing:
             raise Undecided(f"sidecar entries never placed in template: {sorted(missing)}")
         self.text = "\n".join(out_lines)
+        # @@const:NAME@@ -> the literal initializer text of the real constant (so lemmas speak about the code's own constants)
+        def const_sub(m):
+            it = ix.find(m.group(1), kind="const", file_hint=sc.get("const_file_hint"))
+            s0, e0 = it["expr"]
+            lit = ix.text(it["file"], s0, e0).strip()
+            if not re.fullmatch(r"[0-9A-Za-z_x]+", lit):
+                raise Undecided(f"@@const:{m.group(1)}@@ initializer is not a literal: {lit!r}")
+            w.records.append({"path": m.group(1), "kind": "const-literal", "file": os.path.relpath(it["file"], REPO), "span": it["span"],
+                              "sha256": sha(lit), "rules_fired": {"const-literal": 1}, "diff_lines": 0, "diff": [], "literal": lit})
+            return lit
+        self.text = re.sub(r"@@const:(\w+)@@", const_sub, self.text)
         # clause line map
         for n, line in enumerate(self.text.split("\n"), 1):
             for m in re.finditer(r"/\*@(c\d+)\*/", line):
@@ -147,6 +160,12 @@ class Unit:
         for a, b, fid, origin in self.regions:
             if a <= n <= b:
                 return fid
+        # hand-written template text (lemmas, stand-ins): name the enclosing fn
+        lines = self.text.split("\n")
+        for k in range(min(n, len(lines)) - 1, -1, -1):
+            m = re.search(r"\bfn\s+(\w+)", lines[k])
+            if m:
+                return "template::" + m.group(1)
         return None
 
     def clause_of_line(self, n):
